@@ -15,7 +15,7 @@ import (
 // MarshalSchema formats an AST schema as Cedar text.
 func MarshalSchema(schema *ast.Schema) []byte {
 	var buf bytes.Buffer
-	m := marshaler{w: &buf}
+	m := marshaler{w: &buf, shadowed: shadowedBuiltins(schema)}
 	m.marshalSchema(schema)
 	return buf.Bytes()
 }
@@ -23,6 +23,40 @@ func MarshalSchema(schema *ast.Schema) []byte {
 type marshaler struct {
 	w      *bytes.Buffer
 	indent int
+	// built-in type names that the schema also declares as an entity, enum or common type: a bare `String`
+	// would then be read back as a reference to that declaration, so these are written `__cedar::String`
+	shadowed map[string]bool
+}
+
+var builtinTypeNames = []string{"String", "Long", "Bool", "ipaddr", "decimal", "datetime", "duration"}
+
+func shadowedBuiltins(schema *ast.Schema) map[string]bool {
+	var shadowed map[string]bool
+	check := func(entities ast.Entities, enums ast.Enums, commonTypes ast.CommonTypes) {
+		for _, name := range builtinTypeNames {
+			_, isEntity := entities[types.Ident(name)]
+			_, isEnum := enums[types.Ident(name)]
+			_, isCommon := commonTypes[types.Ident(name)]
+			if isEntity || isEnum || isCommon {
+				if shadowed == nil {
+					shadowed = make(map[string]bool)
+				}
+				shadowed[name] = true
+			}
+		}
+	}
+	check(schema.Entities, schema.Enums, schema.CommonTypes)
+	for _, ns := range schema.Namespaces {
+		check(ns.Entities, ns.Enums, ns.CommonTypes)
+	}
+	return shadowed
+}
+
+func (m *marshaler) writeBuiltin(name string) {
+	if m.shadowed[name] {
+		m.w.WriteString("__cedar::")
+	}
+	m.w.WriteString(name)
 }
 
 func (m *marshaler) writeIndent() {
@@ -158,13 +192,13 @@ func (m *marshaler) marshalAnnotations(annotations ast.Annotations) {
 func (m *marshaler) marshalType(t ast.IsType) {
 	switch t := t.(type) {
 	case ast.StringType:
-		m.w.WriteString("String")
+		m.writeBuiltin("String")
 	case ast.LongType:
-		m.w.WriteString("Long")
+		m.writeBuiltin("Long")
 	case ast.BoolType:
-		m.w.WriteString("Bool")
+		m.writeBuiltin("Bool")
 	case ast.ExtensionType:
-		m.w.WriteString(string(t))
+		m.writeBuiltin(string(t))
 	case ast.SetType:
 		m.w.WriteString("Set<")
 		m.marshalType(t.Element)
